@@ -1,10 +1,10 @@
 # -*- coding: utf-8 -*-
 
 import abc
+import calendar
 import datetime
 import enum
 import struct
-import time
 
 import attr
 import six
@@ -838,7 +838,7 @@ class ComposerBinary(ComposerBase):
         if value is None:
             timestamp = 0xffffffffffffffff
         else:
-            timestamp = int(time.mktime(value.timetuple())) - time.timezone
+            timestamp = calendar.timegm(value.utctimetuple())
 
             if milliseconds:
                 timestamp *= 1000
